@@ -289,7 +289,7 @@ func (nz *Normalizer) plan(P *Program) (map[string][]textEdit, int) {
 			continue
 		}
 		sig := fn.Type().(*types.Signature)
-		if sig.TypeParams() != nil || sig.RecvTypeParams() != nil {
+		if sig.RecvTypeParams() != nil {
 			continue
 		}
 		if sig.Recv() != nil && (fn.Exported() || ifaceMethodNames[fn.Name()]) {
@@ -546,6 +546,85 @@ func (nz *Normalizer) siteEdit(fset *token.FileSet, s *nfSite) (textEdit, map[st
 	sig := c.fn.Type().(*types.Signature)
 	nres := sig.Results().Len()
 
+	// ---- generic callee: the type arguments of this call replace the type parameters in the copied text ----
+	tsub := map[types.Object]string{}
+	if tps := sig.TypeParams(); tps != nil {
+		var id *ast.Ident
+		fun := ast.Expr(s.call.Fun)
+		for id == nil {
+			switch f := fun.(type) {
+			case *ast.ParenExpr:
+				fun = f.X
+			case *ast.IndexExpr:
+				fun = f.X
+			case *ast.IndexListExpr:
+				fun = f.X
+			case *ast.SelectorExpr:
+				id = f.Sel
+			case *ast.Ident:
+				id = f
+			default:
+				return textEdit{}, nil, "generic call form"
+			}
+		}
+		inst, ok := info.Instances[id]
+		if !ok || inst.TypeArgs == nil || inst.TypeArgs.Len() != tps.Len() {
+			return textEdit{}, nil, "generic instance unknown"
+		}
+		bad := ""
+		qual := func(p *types.Package) string {
+			if p == s.pkg.Types {
+				return ""
+			}
+			for _, im := range s.file.Imports {
+				ip, _ := strconv.Unquote(im.Path.Value)
+				if ip != p.Path() {
+					continue
+				}
+				if im.Name != nil {
+					if im.Name.Name == "_" || im.Name.Name == "." {
+						break
+					}
+					return im.Name.Name
+				}
+				return p.Name()
+			}
+			bad = "type argument from a package the caller file does not import: " + p.Path()
+			return p.Name()
+		}
+		for i := 0; i < tps.Len(); i++ {
+			tsub[tps.At(i).Obj()] = "(" + types.TypeString(inst.TypeArgs.At(i), qual) + ")"
+		}
+		if bad != "" {
+			return textEdit{}, nil, bad
+		}
+	}
+	// ctext: source text of a node of the callee's declaration with type parameters substituted
+	ctext := func(n ast.Node) string {
+		if len(tsub) == 0 {
+			return text(csrc, n)
+		}
+		type rp struct {
+			s, e int
+			t    string
+		}
+		var rps []rp
+		ast.Inspect(n, func(x ast.Node) bool {
+			if idn, ok := x.(*ast.Ident); ok {
+				if t, has := tsub[info.Uses[idn]]; has {
+					rps = append(rps, rp{off(idn.Pos()) - off(n.Pos()), off(idn.End()) - off(n.Pos()), t})
+				}
+			}
+			return true
+		})
+		out := text(csrc, n)
+		sort.Slice(rps, func(a, b int) bool { return rps[a].s > rps[b].s })
+		for _, r := range rps {
+			out = out[:r.s] + r.t + out[r.e:]
+		}
+		return out
+	}
+
 	// ---- climb from the call to the enclosing statement ------------------------------------------
 	var stmt ast.Stmt
 	var stmtIdx int
@@ -741,7 +820,7 @@ func (nz *Normalizer) siteEdit(fset *token.FileSet, s *nfSite) (textEdit, map[st
 			}
 		}
 		tupleOK = len(st.Results) == 1 && st.Results[0] == ast.Expr(s.call)
-		tail = tupleOK
+		tail = tupleOK && len(tsub) == 0
 	case *ast.DeclStmt:
 		gd, _ := st.Decl.(*ast.GenDecl)
 		if gd == nil || len(gd.Specs) != 1 {
@@ -871,17 +950,17 @@ func (nz *Normalizer) siteEdit(fset *token.FileSet, s *nfSite) (textEdit, map[st
 		if len(f.Names) == 1 && f.Names[0].Name != "_" {
 			name = f.Names[0].Name
 		}
-		binds = append(binds, bind{name, text(csrc, f.Type), rtxt})
+		binds = append(binds, bind{name, ctext(f.Type), rtxt})
 	}
 	var ptypes []struct {
 		name, typ string
 		variadic  bool
 	}
 	for _, f := range c.decl.Type.Params.List {
-		t := text(csrc, f.Type)
+		t := ctext(f.Type)
 		variadic := false
 		if el, ok := f.Type.(*ast.Ellipsis); ok {
-			t = "[]" + text(csrc, el.Elt)
+			t = "[]" + ctext(el.Elt)
 			variadic = true
 		}
 		if len(f.Names) == 0 {
@@ -939,7 +1018,7 @@ func (nz *Normalizer) siteEdit(fset *token.FileSet, s *nfSite) (textEdit, map[st
 	var results []res
 	if c.decl.Type.Results != nil {
 		for _, f := range c.decl.Type.Results.List {
-			t := text(csrc, f.Type)
+			t := ctext(f.Type)
 			if len(f.Names) == 0 {
 				results = append(results, res{"", t})
 			}
@@ -1102,7 +1181,7 @@ func (nz *Normalizer) siteEdit(fset *token.FileSet, s *nfSite) (textEdit, map[st
 			default:
 				var parts []string
 				for _, e := range r.Results {
-					parts = append(parts, string(csrc[off(e.Pos()):off(e.End())]))
+					parts = append(parts, ctext(e))
 				}
 				assign = strings.Join(rtemps, ", ") + " = " + strings.Join(parts, ", ")
 			}
@@ -1138,6 +1217,20 @@ func (nz *Normalizer) siteEdit(fset *token.FileSet, s *nfSite) (textEdit, map[st
 			}
 		}
 		bedits = append(bedits, textEdit{start: off(r.Pos()), end: off(r.End()), text: rep})
+	}
+	// type parameters in the body are replaced by this call's type arguments
+	if len(tsub) > 0 {
+		ast.Inspect(c.decl.Body, func(x ast.Node) bool {
+			if _, isRet := x.(*ast.ReturnStmt); isRet {
+				return false // return statements are rewritten as a whole (their operands go through ctext)
+			}
+			if idn, ok := x.(*ast.Ident); ok {
+				if t, has := tsub[info.Uses[idn]]; has {
+					bedits = append(bedits, textEdit{start: off(idn.Pos()), end: off(idn.End()), text: t})
+				}
+			}
+			return true
+		})
 	}
 	// labels of the callee are renamed per site (labels are function-scoped)
 	{
